@@ -55,6 +55,19 @@ def funcdef(modname: str, qual: str):
     return node, vars(importlib.import_module(f"chartparse.{modname}"))
 
 
+def enclosing_function(modname: str, qual: str):
+    """the FunctionDef that directly contains the (nested) function `qual`, if any"""
+    tree = ast.parse((REPO / "chartparse" / f"{modname}.py").read_text())
+    body, node, parent = tree.body, None, None
+    for part in qual.split("."):
+        parent = node
+        node = next((n for n in reversed(body) if isinstance(n, (ast.FunctionDef, ast.ClassDef)) and n.name == part), None)
+        if node is None:
+            return None
+        body = node.body
+    return parent if isinstance(parent, ast.FunctionDef) else None
+
+
 def own_nodes(fn):
     """nodes of the function's own body, nested function / class definitions excluded"""
     todo = list(fn.body)
@@ -151,6 +164,19 @@ class Fn:
                     if isinstance(m, ast.Name) and isinstance(m.ctx, ast.Store) and m.id not in assigned:
                         assigned.append(m.id)
         self.locals = sorted(x for x in assigned if x not in self.params)
+        # closure variables: names this nested function reads that its enclosing function binds — extra parameters of the term
+        par = enclosing_function(mod, qual)
+        if par is not None:
+            bound = {x.arg for x in par.args.posonlyargs + par.args.args + par.args.kwonlyargs}
+            for n in own_nodes(par):
+                for t in (n.targets if isinstance(n, ast.Assign) else [n.target] if isinstance(n, (ast.AnnAssign, ast.AugAssign, ast.For)) else []):
+                    bound |= {m.id for m in ast.walk(t) if isinstance(m, ast.Name)}
+            used = []
+            for n in own_nodes(self.fn):
+                if isinstance(n, ast.Name) and isinstance(n.ctx, ast.Load) and n.id in bound and n.id not in self.params \
+                        and n.id not in self.locals and n.id not in used:
+                    used.append(n.id)
+            self.params += used
         self.uses_it = False
         self.uses_log = False
         # locals that only ever hold a fresh map-of-lists (so that `x[k].append(v)` has the meaning `appendAt` gives it)
@@ -261,6 +287,10 @@ class Fn:
                     return f"(.lit {lit_val(obj)})"
                 raise Refused(f"global {d}")
             return f"(.attr {self.expr(node.value)} {lean_str(node.attr)})"
+        if isinstance(node, ast.Subscript) and isinstance(node.value, ast.Name) and not self.is_local(node.value.id) \
+                and isinstance(self.glob.get(node.value.id), dict) and not isinstance(node.slice, ast.Slice):
+            # a look-up in a module-level table: the external call `<table>[]`
+            return f"(.call {lean_str(node.value.id + '[]')} {self.spine([self.expr(node.slice)])})"
         if isinstance(node, ast.Subscript):
             if isinstance(node.slice, ast.Slice):
                 if node.slice.step is not None:
